@@ -195,6 +195,43 @@ func stmtContaining(body *ast.BlockStmt, src []byte, off func(token.Pos) int, fr
 	return found
 }
 
+// stmtsContaining: every innermost statement whose source text contains frag.
+func stmtsContaining(body *ast.BlockStmt, src []byte, off func(token.Pos) int, frag string) []ast.Stmt {
+	var out []ast.Stmt
+	var visitList func(list []ast.Stmt)
+	visitList = func(list []ast.Stmt) {
+		for _, s := range list {
+			if !strings.Contains(string(src[off(s.Pos()):off(s.End())]), frag) {
+				continue
+			}
+			n0 := len(out)
+			ast.Inspect(s, func(n ast.Node) bool {
+				switch b := n.(type) {
+				case *ast.BlockStmt:
+					if n != ast.Node(s) {
+						visitList(b.List)
+						return false
+					}
+				case *ast.CaseClause:
+					visitList(b.Body)
+					return false
+				case *ast.CommClause:
+					visitList(b.Body)
+					return false
+				case *ast.FuncLit:
+					return false
+				}
+				return true
+			})
+			if len(out) == n0 {
+				out = append(out, s)
+			}
+		}
+	}
+	visitList(body.List)
+	return out
+}
+
 func loopBody(s ast.Stmt) *ast.BlockStmt {
 	switch l := s.(type) {
 	case *ast.ForStmt:
@@ -348,6 +385,16 @@ func buildOverlay(pkgDir string) (*OverlayResult, error) {
 			}
 			ins = append(ins, insertion{off(fd.Body.Lbrace) + 1, sb.String()})
 			for _, a := range c.Asserts {
+				if a.Each {
+					sts := stmtsContaining(fd.Body, src, off, a.After)
+					if len(sts) == 0 {
+						res.Problems = append(res.Problems, fmt.Sprintf("contract-target-missing: assert %s of %s: no statement contains %q", a.Label, c.Key, a.After))
+					}
+					for _, at := range sts {
+						ins = append(ins, insertion{off(at.Pos()), fmt.Sprintf("__assert(%s, func() bool { return %s }); ", quoteLabel(a.Label), specToGo(a.Text, resultName))})
+					}
+					continue
+				}
 				at := stmtContaining(fd.Body, src, off, a.After)
 				if at == nil {
 					res.Problems = append(res.Problems, fmt.Sprintf("contract-target-missing: assert %s of %s: no statement contains %q", a.Label, c.Key, a.After))
